@@ -109,9 +109,32 @@ func VH_C15_Cache() {
 	cache, auto := true, false // engine defaults
 	model := map[string]*vhC15Entry{"a": {}, "x//a": {}}
 	tag := ""
+	prov := symParam("PROV", 0) == 1
+	if prov {
+		// provenance: auto-reload on, the name first only in the second (timestamp-aware) loader; the
+		// first loader gains and loses byte-identical and different copies, the second is touched
+		symAssume(secondTS && !l0.has["a"] && l1ts.has["a"])
+		l1ts.ver["a"] = 2
+		auto = true
+		e.SetAutoReload(true)
+	}
 	for step := 0; step < h; step++ {
 		op := symChoice(11)
+		if prov {
+			symAssume(op == 3 || op == 4 || op == 6 || op == 8 || op == 5)
+		}
 		n := names[symChoice(symParam("NAMES", 1))] // names touched by history operations
+		if prov && op == 3 { // the first loader's copy alternates between the second loader's text and another
+			tag += "U"
+			m2 := int64(symInt())
+			symAssume(m2 > l0.mtime[n])
+			nv := 2
+			if l0.has[n] && l0.ver[n] == 2 {
+				nv = 0
+			}
+			l0.mtime[n], l0.has[n], l0.ver[n] = m2, true, nv
+			continue
+		}
 		switch op {
 		case 10: // registration of exactly the text that is being served for the name right now
 			if !model[n].present {
